@@ -150,6 +150,21 @@ func allScenarios() []*scenario {
 	// Deepened variants, explored in the thorough tier only (the quick tier selects scenarios by name):
 	// one more preemption for the preemption-bounded scenarios, and one crash / one injected I/O fault as an
 	// additional deviation for every plain scenario of at most three processes.
+	// Fault flavours: every fault scenario also runs with short writes (a failing write stores half of its
+	// bytes and reports ENOSPC) and with a disk that stays full (after the first failure every later create
+	// and write of that process fails too).
+	for _, s := range base {
+		if !s.FaultEnum && s.Faults == 0 {
+			continue
+		}
+		for _, mode := range []string{"short", "sticky"} {
+			c := *s
+			c.Name = s.Name + "+" + mode
+			c.FaultMode = mode
+			c.Why = s.Why + map[string]string{"short": " [failing writes are short writes]", "sticky": " [the disk stays full for the process once a call failed]"}[mode]
+			out = append(out, &c)
+		}
+	}
 	for _, s := range base {
 		if s.FaultEnum || s.MixedHash {
 			continue
@@ -178,11 +193,11 @@ func allScenarios() []*scenario {
 }
 
 var quickSets = map[string][]string{
-	"C04": {"S1-empty", "S1-one", "S2", "S5", "S8", "S14", "S9", "S1-one@s256", "S10", "S18-reject", "S19-span", "S3", "S12", "S16", "S2@s256", "S20", "S21", "S15-crash", "S7-close", "S7-clean", "S7-close-partial", "S17-gc-empty", "S6p", "S16c", "S8-3", "S2-high", "S1-skipname", "S1-empty@s256", "S16c@s256", "S19-span-skipname", "F6-fault-stale-retry", "F1-fault-compact-add", "S9-stale", "S7-clean-compact", "E1-faultenum-add", "E2-faultenum-compact", "E3-faultenum-addition", "E4-faultenum-gc", "E5-faultenum-open", "E6-faultenum-expire", "S22", "S23-cancel-all", "S14-3"},
-	"C05": {"S1-one", "S2", "S3", "S4", "S4b", "S16c", "S20", "S21", "S8-3", "S2-high", "F4-fault-addition", "F5-fault-reader", "S5@s256", "S19-span-skipname", "F6-fault-stale-retry", "S9-stale", "E1-faultenum-add", "E2-faultenum-compact", "E3-faultenum-addition", "E4-faultenum-gc", "E5-faultenum-open", "S7-clean-compact", "S18-reject", "S19-span", "S6p", "S6q-b2", "S7-close-partial", "F1-fault-compact-add", "F2-fault-add-add", "S5", "S7-close", "S7-clean", "S13", "S15-crash", "S16", "E6-faultenum-expire", "S17-gc-orphan-empty", "S22", "S23-cancel-all", "S14-3"},
-	"C08": {"S1-one", "S2", "S4b", "S5", "S5b", "S8", "S7-clean", "S20", "S21", "S8-3", "F4-fault-addition", "S4b@s256", "F1-fault-compact-add", "F2-fault-add-add", "F3-fault-range-range", "S23-cancel-all", "S14", "S22", "S14-3"},
-	"C10": {"S6", "S6p", "S6o", "S6q-b2", "S1-one", "S12", "S6-3", "S6p@s256", "S6r", "S16c", "S16c@s256", "S2-high", "E1-faultenum-add", "E2-faultenum-compact", "E3-faultenum-addition", "E4-faultenum-gc", "E5-faultenum-open", "E6-faultenum-expire"},
-	"C16": {"S1-empty", "S1-one", "S2", "S4", "S4b", "S16c", "S20", "S21", "S8-3", "S2-high", "S1-skipname", "F6-fault-stale-retry", "S9-stale", "E1-faultenum-add", "E2-faultenum-compact", "E3-faultenum-addition", "E4-faultenum-gc", "E5-faultenum-open", "F4-fault-addition", "F5-fault-reader", "S2@s256", "S18-reject", "S7-close-partial", "F1-fault-compact-add", "F2-fault-add-add", "S5", "S7-close", "S7-clean", "S7-clean-compact", "S8", "S10", "S17-gc-empty", "E6-faultenum-expire", "S17-gc-orphan-empty", "S23-cancel-all", "S14", "S14-3"},
+	"C04": {"S1-empty", "S1-one", "S2", "S5", "S8", "S14", "S9", "S1-one@s256", "S10", "S18-reject", "S19-span", "S3", "S12", "S16", "S2@s256", "S20", "S21", "S15-crash", "S7-close", "S7-clean", "S7-close-partial", "S17-gc-empty", "S6p", "S16c", "S8-3", "S2-high", "S1-skipname", "S1-empty@s256", "S16c@s256", "S19-span-skipname", "F6-fault-stale-retry", "F1-fault-compact-add", "S9-stale", "S7-clean-compact", "E1-faultenum-add", "E2-faultenum-compact", "E3-faultenum-addition", "E4-faultenum-gc", "E5-faultenum-open", "E6-faultenum-expire", "S22", "S23-cancel-all", "S14-3", "E1-faultenum-add+short", "E2-faultenum-compact+short", "E3-faultenum-addition+short", "E4-faultenum-gc+short", "E5-faultenum-open+short", "E6-faultenum-expire+short", "E1-faultenum-add+sticky", "E2-faultenum-compact+sticky", "E3-faultenum-addition+sticky", "E4-faultenum-gc+sticky", "E5-faultenum-open+sticky", "E6-faultenum-expire+sticky"},
+	"C05": {"S1-one", "S2", "S3", "S4", "S4b", "S16c", "S20", "S21", "S8-3", "S2-high", "F4-fault-addition", "F5-fault-reader", "S5@s256", "S19-span-skipname", "F6-fault-stale-retry", "S9-stale", "E1-faultenum-add", "E2-faultenum-compact", "E3-faultenum-addition", "E4-faultenum-gc", "E5-faultenum-open", "S7-clean-compact", "S18-reject", "S19-span", "S6p", "S6q-b2", "S7-close-partial", "F1-fault-compact-add", "F2-fault-add-add", "S5", "S7-close", "S7-clean", "S13", "S15-crash", "S16", "E6-faultenum-expire", "S17-gc-orphan-empty", "S22", "S23-cancel-all", "S14-3", "E1-faultenum-add+short", "E2-faultenum-compact+short", "E3-faultenum-addition+short", "E4-faultenum-gc+short", "E5-faultenum-open+short", "E6-faultenum-expire+short", "E1-faultenum-add+sticky", "E2-faultenum-compact+sticky", "E3-faultenum-addition+sticky", "E4-faultenum-gc+sticky", "E5-faultenum-open+sticky", "E6-faultenum-expire+sticky", "F1-fault-compact-add+sticky", "F2-fault-add-add+short"},
+	"C08": {"S1-one", "S2", "S4b", "S5", "S5b", "S8", "S7-clean", "S20", "S21", "S8-3", "F4-fault-addition", "S4b@s256", "F1-fault-compact-add", "F2-fault-add-add", "F3-fault-range-range", "S23-cancel-all", "S14", "S22", "S14-3", "F1-fault-compact-add+sticky", "F2-fault-add-add+short", "F3-fault-range-range+sticky"},
+	"C10": {"S6", "S6p", "S6o", "S6q-b2", "S1-one", "S12", "S6-3", "S6p@s256", "S6r", "S16c", "S16c@s256", "S2-high", "E1-faultenum-add", "E2-faultenum-compact", "E3-faultenum-addition", "E4-faultenum-gc", "E5-faultenum-open", "E6-faultenum-expire", "E1-faultenum-add+short", "E2-faultenum-compact+short", "E3-faultenum-addition+short", "E4-faultenum-gc+short", "E5-faultenum-open+short", "E6-faultenum-expire+short", "E1-faultenum-add+sticky", "E2-faultenum-compact+sticky", "E3-faultenum-addition+sticky", "E4-faultenum-gc+sticky", "E5-faultenum-open+sticky", "E6-faultenum-expire+sticky"},
+	"C16": {"S1-empty", "S1-one", "S2", "S4", "S4b", "S16c", "S20", "S21", "S8-3", "S2-high", "S1-skipname", "F6-fault-stale-retry", "S9-stale", "E1-faultenum-add", "E2-faultenum-compact", "E3-faultenum-addition", "E4-faultenum-gc", "E5-faultenum-open", "F4-fault-addition", "F5-fault-reader", "S2@s256", "S18-reject", "S7-close-partial", "F1-fault-compact-add", "F2-fault-add-add", "S5", "S7-close", "S7-clean", "S7-clean-compact", "S8", "S10", "S17-gc-empty", "E6-faultenum-expire", "S17-gc-orphan-empty", "S23-cancel-all", "S14", "S14-3", "E1-faultenum-add+short", "E2-faultenum-compact+short", "E3-faultenum-addition+short", "E4-faultenum-gc+short", "E5-faultenum-open+short", "E6-faultenum-expire+short", "E1-faultenum-add+sticky", "E2-faultenum-compact+sticky", "E3-faultenum-addition+sticky", "E4-faultenum-gc+sticky", "E5-faultenum-open+sticky", "E6-faultenum-expire+sticky", "F1-fault-compact-add+sticky", "F2-fault-add-add+short", "F4-fault-addition+sticky"},
 }
 
 func catalogue(prop, tier string) []*scenario {
